@@ -51,10 +51,16 @@ Check(e) ==
                                                   \/ \E j \in SeqSet(e.bearers) : U[j].id = U[i].id /\ U[j].addr \in SeqSet(e.stores)
         ELSE TRUE
       unexplained == {i \in Top(pool) : e.kind \in {"find_node", "closest"} /\ i \notin SeqSet(rep) /\ ~Explained(i, pool)}
+      \* "answered or timed out": when the call returns, every request of the lookup has been answered or is at least as old as
+      \* the shortest request timeout (500 ms) - a lookup does not finish over the head of a node that is about to answer
+      noEarly == \A r \in 1..Len(e.requests) :
+                   \/ \E x \in 1..Len(e.answers) : e.answers[x][1] = e.requests[r][1] /\ e.answers[x][2] >= e.requests[r][2]
+                   \/ e.end_ms - e.requests[r][2] >= 500
   IN [failed |-> (IF e.done THEN {} ELSE {"C07_LookupCompletes"})
                  \cup (IF closure THEN {} ELSE {"C07_Closure"})
                  \cup (IF requery THEN {"C07_NoRequery"} ELSE {})
-                 \cup (IF reportedOk THEN {} ELSE {"C07_Reported"}),
+                 \cup (IF reportedOk THEN {} ELSE {"C07_Reported"})
+                 \cup (IF e.done /\ ~noEarly THEN {"C07_WaitsForAnswers"} ELSE {}),
       known |-> Cardinality(known), top_unqueried |-> {U[i].addr : i \in {j \in Top(known) : ~QueriedE(j)}},
       \* every unqueried entry of the closest K shares its IP with another known entry (the accumulator's per-IP rule kept that one)
       shared_ip |-> \A i \in {j \in Top(known) : ~QueriedE(j)} : Explained(i, known \cup SeqSet(e.seeds))]
